@@ -133,6 +133,11 @@ func (b *BFS[O]) Run(r *Run) BFSResult {
 			r.NotExhaustive(fmt.Sprintf("%s: tier budget reached at depth %d with %d frontier states", b.Name, depth, len(frontier)))
 			break
 		}
+		if r.NumViolations() > MaxStoredViolations {
+			res.Exhaustive = false
+			r.NotExhaustive(fmt.Sprintf("%s: more than %d violating cases; the search was stopped at depth %d", b.Name, MaxStoredViolations, depth))
+			break
+		}
 		if b.MaxStates > 0 && res.States > b.MaxStates {
 			res.Exhaustive = false
 			r.NotExhaustive(fmt.Sprintf("%s: state cap %d reached at depth %d", b.Name, b.MaxStates, depth))
